@@ -116,9 +116,9 @@ pub fn gen_spec(ch: &mut Ch) -> WorldSpec {
     }
     let paths: Vec<Vec<Vec<u8>>> = spec.resources.keys().cloned().collect();
     let mut focus: Vec<(usize, bool)> = Vec::new();
-    let nh = 1 + ch.below(3, "h.nclients") as usize;
+    let nh = 1 + ch.below(if thorough() { 4 } else { 3 }, "h.nclients") as usize;
     for hi in 0..nh {
-        let n = 1 + ch.below(8, "h.nreq") as usize;
+        let n = 1 + ch.below(if thorough() { 16 } else { 8 }, "h.nreq") as usize;
         let mut dgs = Vec::new();
         for k in 0..n {
             let r = hostile_request(ch, &paths, (hi * 100 + k) as u16);
